@@ -102,12 +102,16 @@ def run_property(pid, tier, seed, out=sys.stdout):
         print("UNDECIDED property=%s no contracts registered" % pid, file=out)
         return 2
 
+    t_gen0 = time.time()
     per, eng = generate(fucs, False)
+    t_gen = time.time() - t_gen0
     obls = []
     for q in fucs:
         for ob in per[q]['obligations']:
             obls.append((q, ob))
+    t_s0 = time.time()
     results = solve.discharge([ob for _, ob in obls], timeout_s=timeout_s)
+    t_solve1 = time.time() - t_s0
     # second chance in Lambda mode for what is still open
     open_idx = [i for i, r in enumerate(results) if r['verdict'] == solve.UNKNOWN and not r['expect_sat']]
     if open_idx:
@@ -154,9 +158,14 @@ def run_property(pid, tier, seed, out=sys.stdout):
     for q in fucs:
         if per[q].get('error'):
             need_native.add(q)
+    from concurrent.futures import ThreadPoolExecutor
+    plan = {q: (native_n if q in need_native else max(30, native_n // 5)) for q in fucs}
+    with ThreadPoolExecutor(max_workers=12) as tp:
+        futs = {q: tp.submit(native_search, q, plan[q], seed) for q in fucs}
+        native_results = {q: f.result() for q, f in futs.items()}
     for q in fucs:
-        n = native_n if q in need_native else max(30, native_n // 5)
-        nr = native_search(q, n, seed)
+        n = plan[q]
+        nr = native_results[q]
         native_by_fn[q] = nr
         bounded.append(dict(function=q, kind='bounded run-time contract check of the real function (NOT counted as proved)',
                             cases=nr.get('cases', 0), checked=nr.get('checked', 0),
@@ -184,7 +193,11 @@ def run_property(pid, tier, seed, out=sys.stdout):
 
     grouped = {}
     covers = {}
+    tag_re = re.compile(r'\[(C\d+(?:,C\d+)*)\]')
     for (q, ob), r in zip(obls, results):
+        mt = tag_re.search(ob.name)
+        if mt and pid not in mt.group(1).split(','):
+            continue        # clause tagged for other properties only
         solver_s += r['time']
         by_backend[r['backend']] = by_backend.get(r['backend'], 0) + 1
         if ob.kind == 'cover':
@@ -354,8 +367,8 @@ def run_property(pid, tier, seed, out=sys.stdout):
     if total == 0 or discharged == 0:
         print("UNDECIDED property=%s zero obligations generated" % pid, file=out)
         return 2
-    print("OK property=%s obligations=%d discharged=%d path-queries=%d known-findings=%d wall=%.1fs" %
-          (pid, total, discharged, len(obls), len(known_hits), time.time() - t_start), file=out)
+    print("OK property=%s obligations=%d discharged=%d path-queries=%d known-findings=%d wall=%.1fs (generate %.1fs, first solve pass %.1fs)" %
+          (pid, total, discharged, len(obls), len(known_hits), time.time() - t_start, t_gen, t_solve1), file=out)
     return 0
 
 
